@@ -130,10 +130,23 @@ func (w wWrap) Write(p []byte) (int, error) { return w.inner.Write(p) }
 func (w wWrap) WriteHeader(c int)           { w.inner.WriteHeader(c) }
 func (w wWrap) Unwrap() http.ResponseWriter { return w.inner }
 
+// wWrapU is a middleware-style wrapper VALUE with an uncomparable field (two interface values
+// holding it must never be compared with ==).
+type wWrapU struct {
+	inner http.ResponseWriter
+	tags  []string
+}
+
+func (w wWrapU) Header() http.Header         { return w.inner.Header() }
+func (w wWrapU) Write(p []byte) (int, error) { return w.inner.Write(p) }
+func (w wWrapU) WriteHeader(c int)           { w.inner.WriteHeader(c) }
+func (w wWrapU) Unwrap() http.ResponseWriter { return w.inner }
+
 // Shape: base in {none, flusher, flusherr, both}, wrapped Depth times.
 type Shape struct {
-	Base  string `json:"base"`
-	Depth int    `json:"depth,omitempty"`
+	Base         string `json:"base"`
+	Depth        int    `json:"depth,omitempty"`
+	Uncomparable bool   `json:"uncomparable,omitempty"` // the wrappers are values with a slice field
 }
 
 func (s Shape) canFlush() bool     { return s.Base != "none" }
@@ -153,7 +166,11 @@ func (s Shape) build(c *core) http.ResponseWriter {
 		w = wBoth{c}
 	}
 	for i := 0; i < s.Depth; i++ {
-		w = wWrap{w}
+		if s.Uncomparable {
+			w = wWrapU{inner: w, tags: []string{"mw"}}
+		} else {
+			w = wWrap{w}
+		}
 	}
 	return w
 }
